@@ -195,3 +195,73 @@ def c11_text_whitespace_not_preserved(f):
         # the reloaded text has the inserted blanks, the second write indents it once more
         return bool(f.features.get("with_ws")) and set(f.features["with_ws"]) <= {"reindented", "attr-normalized"}
     return False
+
+
+# ---------------------------------------------------------------------------
+# generated documents with the snippets of vlib/models/odxsnippets.py (element kinds the shipped
+# examples do not contain).  features.where2 = the two innermost open elements at the XML error.
+# ---------------------------------------------------------------------------
+def _c11_gen_xml(f) -> str:
+    c = f.case if isinstance(f.case, dict) else {}
+    return c.get("xml", "") if c.get("kind") == "generated" else ""
+
+
+@predicate("c11_state_chart_semantic_unescaped")
+def c11_state_chart_semantic_unescaped(f):
+    return _c11(f, "well-formed", "not-well-formed") and f.features.get("where2") == "STATE-CHART/SEMANTIC"
+
+
+@predicate("c11_external_access_method_dropped")
+def c11_external_access_method_dropped(f):
+    return _c11_bucket_in(f, "structural", ("StateTransition.external_access_method|dropped",))
+
+
+@predicate("c11_output_param_duplicate_oid")
+def c11_output_param_duplicate_oid(f):
+    return (_c11(f, "well-formed", "not-well-formed") and f.features.get("where2") == "OUTPUT-PARAMS/OUTPUT-PARAM"
+            and "duplicate attribute" in f.detail)
+
+
+@predicate("c11_library_text_unescaped")
+def c11_library_text_unescaped(f):
+    return (_c11(f, "well-formed", "not-well-formed")
+            and f.features.get("where2") in tuple("LIBRARY/" + t for t in ("CODE-FILE", "ENCRYPTION", "SYNTAX",
+                                                                            "REVISION", "ENTRYPOINT")))
+
+
+@predicate("c11_related_diag_comm_relation_type_unescaped")
+def c11_related_diag_comm_relation_type_unescaped(f):
+    return (_c11(f, "well-formed", "not-well-formed")
+            and f.features.get("where2") == "RELATED-DIAG-COMM-REF/RELATION-TYPE")
+
+
+@predicate("c11_dyn_defined_spec_writer")
+def c11_dyn_defined_spec_writer(f):
+    return (_c11(f, "write", "write-raises") and f.features.get("exc") == "UndefinedError"
+            and "'pdynspec' is undefined" in f.detail and "<DYN-DEFINED-SPEC>" in _c11_gen_xml(f))
+
+
+@predicate("c11_diag_variable_writer")
+def c11_diag_variable_writer(f):
+    x = _c11_gen_xml(f)
+    return (_c11(f, "write", "write-raises") and f.features.get("exc") == "UndefinedError"
+            and "'pdv' is undefined" in f.detail and ("<DIAG-VARIABLES>" in x or "<VARIABLE-GROUPS>" in x))
+
+
+@predicate("c11_table_diag_comm_connectors_dropped")
+def c11_table_diag_comm_connectors_dropped(f):
+    return _c11_bucket_in(f, "structural", ("Table.table_diag_comm_connectors|dropped",))
+
+
+@predicate("c11_dtc_connector_snref_tag")
+def c11_dtc_connector_snref_tag(f):
+    # the DTC-SNREF of a DTC-CONNECTOR is written as DOP-SNREF: the parser's odxrequire() raises a bare OdxError
+    return (_c11(f, "reload", "reload-raises") and f.features.get("exc") == "OdxError"
+            and f.detail.rstrip().endswith("raised OdxError:") and "<DTC-CONNECTOR>" in _c11_gen_xml(f))
+
+
+@predicate("c11_empty_long_name_dropped")
+def c11_empty_long_name_dropped(f):
+    return (_c11(f, "structural", "altered") and f.features.get("key", "").endswith(".long_name")
+            and f.features.get("key") != "TableRow.long_name"
+            and f.features.get("a") == "''" and f.features.get("b") == "None")
